@@ -56,7 +56,10 @@ class JP_Abs(JumpInstruction):
         assert len(rest) == 0, "Expected no extra operands"
         assert isinstance(first, HasWidth), f"Expected HasWidth, got {type(first)}"
         if first.width() >= 3:
-            return first.lift(il)
+            # JP (n) reads its target through the internal-memory mode selected
+            # by a PRE byte, exactly as render() shows it.
+            dst_mode, _src_mode = self._addressing_modes()
+            return first.lift(il, dst_mode)
         high_addr = addr & 0xFF0000
         return il.or_expr(3, first.lift(il), il.const(3, high_addr))
 
